@@ -2,7 +2,7 @@ SPECIFICATION Spec
 CONSTANTS
   EmitCases = TRUE
   DerivedTraits = {"Display", "LowerHex", "Debug"}
-  PhTypes = {"Display", "Debug", "LowerHex", "LowerDebug"}
+  PhTypes = {"Display", "Debug", "LowerHex", "LowerDebug", "Pointer"}
 INVARIANTS
   P_C05_Iff
   P_C05_IffShared
